@@ -13,6 +13,15 @@ CHECKS = {
    technique='Coq proof (induction over the metric list / fold invariant) + differential correspondence with vm_compute',
    ref='§6 C16'),
 }
+CHECKS['C17'] = dict(
+   text='Theorems for ALL sizes and bounds over the Gallina transliteration of Util.execute_xform_size and the video reader size code: '
+        'maxsize/minsize bounds, never enlarge/shrink, aspect within one pixel (stated without reals), + forms, exact resize, totality '
+        '(no valid input fails), reader resize inside the box; flips/rotations proved exact inverses, box confined to its rectangle. '
+        'The PrimFloat instance of the model is run bit-exactly against the real code on every check.',
+   note=NOTE_COMMON + 'The float steps enter the theorems through the hypothesis arith_spec (floor, or one less on exact-integer products), '
+        'validated for the PrimFloat instance on every generated tuple, not proved; Print Assumptions of the non-vacuity theorem lists the PrimFloat/Uint63 kernel primitives. OpenCV interpolation is not modelled.',
+   technique='Coq proof (lia/nia arithmetic lemmas; index arithmetic for permutations) + PrimFloat-exact differential correspondence',
+   ref='§6 C17')
 NOT_YET = {}
 def main():
     props = [json.loads(l) for l in open(os.path.join(VERIF, 'properties.jsonl'))]
